@@ -38,7 +38,12 @@ def _make_symbols_map(
 
 def deserialize_expr(expr_str, symbol_names):
     symbols_map = _make_symbols_map(symbol_names)
-    return sympy.sympify(expr_str, locals=symbols_map)
+    expr = sympy.sympify(expr_str, locals=symbols_map)
+    if isinstance(expr, sympy.Float):
+        # Parsing decimal text at sympy's text-derived precision and rounding to a
+        # double afterwards can be off by one ulp; go through the double directly.
+        return sympy.Float(float(expr_str))
+    return expr
 
 
 def builtin_gate_by_name(name):
